@@ -531,6 +531,9 @@ impl CanonicalizeContextPatternsCache {
 			let decimal_separator_pref = pref_manager.pref_to_string("DecimalSeparators");
 
 			let mut cache = cache.borrow_mut();
+			#[cfg(mathcat_verif)]
+			crate::speech::verif::log_load("patterns", std::path::Path::new(&format!("{}\u{1}{}", block_separator_pref, decimal_separator_pref)),
+					block_separator_pref != cache.block_separator_pref || decimal_separator_pref != cache.decimal_separator_pref);
 			if block_separator_pref != cache.block_separator_pref || decimal_separator_pref != cache.decimal_separator_pref {
 				// update the cache
 				cache.patterns = Rc::new( CanonicalizeContextPatterns::new(&block_separator_pref, &decimal_separator_pref) );
